@@ -17,7 +17,14 @@
 //
 // ops:
 //
-//	cfg mode=<det|race> v=<1|2> cap=<c> mss=<m> n=<n> age=<0|1> bsd=<ms>
+//	cfg mode=<det|race> v=<1|2> cap=<c> mss=<m> n=<n> age=<0|1> bsd=<ms> [rl=1]
+//	ext <hexname> <hexvalue> …       (rl=1, before the first feed op) the external labels; default none
+//	rule <action> <l|u> <srcs> <sep> <regex> <modulus> <target> <replacement>
+//	                                  (rl=1, before the first feed op) one write_relabel_config, in the line
+//	                                  format of suite `relabel`; out `ok` | `invalid` (Validate rejects it, not used)
+//	                                  Without rl=1: external labels ext="e" zone="z", rules drop d=~"1" and
+//	                                  replace s -> t="x$1" (the legacy configuration)
+//	lseries <ref> <seg> <hexname> <hexvalue> …   StoreSeries with these labels
 //	script <id> <outcomes>            the batch whose first scripted sample is <id> is answered, attempt by
 //	                                  attempt, r = recoverable error (request lost), R = recoverable error after
 //	                                  the endpoint stored the request, u = non-recoverable error; then success
@@ -33,9 +40,12 @@
 //
 // outputs: `ok` for every op but `end`, which prints
 //
-//	recv=<ref>:<id>.<id>…;… att=<n|*> failed=<n|*> retried=<n|*> old=<n> dser=<n> dunk=<n> bad=<n> sentdiff=<n> pend=<n|*>
+//	recv=<ref>:<id>.<id>…;… att=<n|*> failed=<n|*> retried=<n|*> old=<n> dser=<n> dunk=<n> bad=<n> sentdiff=<n> pend=<n|*> lbl=<ref>=<listing>[|<listing>];…
 //
-// recv is the raw per-series receive sequence in det mode and its first occurrences in race mode.
+// recv is the raw per-series receive sequence in det mode and its first occurrences in race mode. A received
+// sample is attributed to the ref of the `app` op with its id (the sample value), never by its labels; lbl lists
+// per ref the distinct label sets (hexname:hexvalue,… in wire order) its samples arrived with. Whether a series
+// is kept and which labels it must carry is decided on the Lean side only.
 package main
 
 import (
@@ -70,7 +80,7 @@ import (
 // ---------------------------------------------------------------- fake endpoint
 
 type item struct {
-	key  string // canonical label string
+	key  string // label listing hexname:hexvalue,… in wire order
 	t    int64
 	id   int
 	hist bool
@@ -82,7 +92,8 @@ type fakeClient struct {
 	mu        sync.Mutex
 	gate      chan struct{} // non-nil while blocked
 	script    map[int]string
-	expect    map[string]int // canonical labels -> ref
+	idRef     map[int]int             // sample id -> ref of its app op
+	lbl       map[int]map[string]bool // ref -> label listings seen
 	baseT     int64
 	raw       map[int][]int // ref -> received ids in arrival order
 	reached   map[int]bool  // ids stored by the endpoint in a request that was answered with an error
@@ -114,10 +125,10 @@ func (c *fakeClient) decode(req []byte) ([]item, error) {
 				return nil, err
 			}
 			for _, s := range ts.Samples {
-				out = append(out, item{key: l.String(), t: s.Timestamp, id: int(s.Value)})
+				out = append(out, item{key: listing(l), t: s.Timestamp, id: int(s.Value)})
 			}
 			for _, hh := range ts.Histograms {
-				out = append(out, item{key: l.String(), t: hh.Timestamp, id: int(hh.Sum), hist: true})
+				out = append(out, item{key: listing(l), t: hh.Timestamp, id: int(hh.Sum), hist: true})
 			}
 		}
 		return out, nil
@@ -129,10 +140,10 @@ func (c *fakeClient) decode(req []byte) ([]item, error) {
 	for _, ts := range r.Timeseries {
 		l := ts.ToLabels(&b, nil)
 		for _, s := range ts.Samples {
-			out = append(out, item{key: l.String(), t: s.Timestamp, id: int(s.Value)})
+			out = append(out, item{key: listing(l), t: s.Timestamp, id: int(s.Value)})
 		}
 		for _, hh := range ts.Histograms {
-			out = append(out, item{key: l.String(), t: hh.Timestamp, id: int(hh.Sum), hist: true})
+			out = append(out, item{key: listing(l), t: hh.Timestamp, id: int(hh.Sum), hist: true})
 		}
 	}
 	return out, nil
@@ -175,12 +186,16 @@ func (c *fakeClient) Store(ctx context.Context, req []byte, attempt int) (remote
 	}
 	record := func() {
 		for _, it := range items {
-			ref, ok := c.expect[it.key]
+			ref, ok := c.idRef[it.id]
 			if !ok {
 				c.bad++
-				c.badDetail = append(c.badDetail, "labels:"+it.key)
+				c.badDetail = append(c.badDetail, fmt.Sprintf("unknown-id:%d", it.id))
 				continue
 			}
+			if c.lbl[ref] == nil {
+				c.lbl[ref] = map[string]bool{}
+			}
+			c.lbl[ref][it.key] = true
 			if it.t != c.baseT+int64(it.id) && it.t != c.baseT-3600_000+int64(it.id) {
 				c.bad++
 				c.badDetail = append(c.badDetail, fmt.Sprintf("timestamp:%d", it.id))
@@ -235,12 +250,90 @@ func (c *fakeClient) release() {
 
 // ---------------------------------------------------------------- running one case
 
-func expectedLabels(lid int, own bool) labels.Labels {
-	ext := "e"
-	if own {
-		ext = "own"
+func listing(ls labels.Labels) string {
+	var parts []string
+	ls.Range(func(l labels.Label) {
+		parts = append(parts, h.HexS(l.Name)+":"+h.HexS(l.Value))
+	})
+	if len(parts) == 0 {
+		return "-"
 	}
-	return labels.FromStrings("__name__", "m", "s", strconv.Itoa(lid), "t", "x"+strconv.Itoa(lid), "ext", ext, "zone", "z")
+	return strings.Join(parts, ",")
+}
+
+func lblMap(m map[int]map[string]bool) string {
+	var refs []int
+	for r := range m {
+		refs = append(refs, r)
+	}
+	sort.Ints(refs)
+	var parts []string
+	for _, r := range refs {
+		var ls []string
+		for l := range m[r] {
+			ls = append(ls, l)
+		}
+		sort.Strings(ls)
+		parts = append(parts, strconv.Itoa(r)+"="+strings.Join(ls, "|"))
+	}
+	if len(parts) == 0 {
+		return "-"
+	}
+	return strings.Join(parts, ";")
+}
+
+func unhexPairs(f []string) (labels.Labels, bool) {
+	if len(f)%2 != 0 {
+		return labels.EmptyLabels(), false
+	}
+	kv := make([]string, len(f))
+	for i, x := range f {
+		kv[i] = string(h.UnHex(x))
+	}
+	return labels.FromStrings(kv...), true
+}
+
+// parseRule reads a `rule` line (format of suite relabel).
+func parseRule(f []string) (*relabel.Config, error) {
+	if len(f) != 8 {
+		return nil, fmt.Errorf("bad rule arity")
+	}
+	cfg := &relabel.Config{Action: relabel.Action(f[0])}
+	switch f[1] {
+	case "l":
+		cfg.NameValidationScheme = model.LegacyValidation
+	case "u":
+		cfg.NameValidationScheme = model.UTF8Validation
+	default:
+		return nil, fmt.Errorf("bad scheme")
+	}
+	switch f[2] {
+	case "nil":
+	case "none":
+		cfg.SourceLabels = model.LabelNames{}
+	default:
+		for _, s := range strings.Split(f[2], ",") {
+			cfg.SourceLabels = append(cfg.SourceLabels, model.LabelName(h.UnHex(s)))
+		}
+	}
+	cfg.Separator = string(h.UnHex(f[3]))
+	if f[4] == "D" {
+		cfg.Regex = relabel.DefaultRelabelConfig.Regex
+	} else {
+		re, err := relabel.NewRegexp(string(h.UnHex(f[4])))
+		if err != nil {
+			return nil, err
+		}
+		cfg.Regex = re
+	}
+	m, err := strconv.ParseUint(f[5], 10, 64)
+	if err != nil {
+		return nil, err
+	}
+	cfg.Modulus = m
+	cfg.TargetLabel = string(h.UnHex(f[6]))
+	cfg.Replacement = string(h.UnHex(f[7]))
+	return cfg, nil
 }
 
 func seriesLabels(lid int, kind string) labels.Labels {
@@ -316,7 +409,7 @@ func runCase(c *h.Ctx, ops []string) {
 		}
 		return
 	}
-	mode, v, capa, mss, n0, age, bsd := "det", 1, 4, 2, 1, 0, 5
+	mode, v, capa, mss, n0, age, bsd, explicit := "det", 1, 4, 2, 1, 0, 5, false
 	for _, tok := range strings.Fields(ops[0])[1:] {
 		k, val := kv(tok)
 		switch k {
@@ -334,6 +427,8 @@ func runCase(c *h.Ctx, ops []string) {
 			age = atoi(val)
 		case "bsd":
 			bsd = atoi(val)
+		case "rl":
+			explicit = val == "1"
 		}
 	}
 	if mss < 1 || capa < 1 || n0 < 1 {
@@ -355,7 +450,7 @@ func runCase(c *h.Ctx, ops []string) {
 		cfg.SampleAgeLimit = model.Duration(10 * time.Minute)
 	}
 	baseT := time.Now().UnixMilli()
-	cl := &fakeClient{v2: v == 2, script: map[int]string{}, expect: map[string]int{}, baseT: baseT,
+	cl := &fakeClient{v2: v == 2, script: map[int]string{}, idRef: map[int]int{}, lbl: map[int]map[string]bool{}, baseT: baseT,
 		raw: map[int][]int{}, reached: map[int]bool{}, unrec: map[int]bool{}}
 	proto := remoteapi.WriteV1MessageType
 	if v == 2 {
@@ -365,9 +460,45 @@ func runCase(c *h.Ctx, ops []string) {
 		{SourceLabels: model.LabelNames{"d"}, Separator: ";", Regex: relabel.MustNewRegexp("1"), Action: relabel.Drop, NameValidationScheme: model.UTF8Validation},
 		{SourceLabels: model.LabelNames{"s"}, Separator: ";", Regex: relabel.MustNewRegexp("(.*)"), TargetLabel: "t", Replacement: "x$1", Action: relabel.Replace, NameValidationScheme: model.UTF8Validation},
 	}
+	extLabels := labels.FromStrings("ext", "e", "zone", "z")
+	// configuration ops: the leading run of script/ext/rule ops (the QueueManager is built from them)
+	cfgOut := map[int]string{}
+	if explicit {
+		extLabels, rc = labels.EmptyLabels(), nil
+	}
+	for i, op := range ops[1:] {
+		f := strings.Fields(op)
+		if len(f) == 0 || (f[0] != "script" && f[0] != "ext" && f[0] != "rule") {
+			break
+		}
+		if !explicit || f[0] == "script" {
+			continue
+		}
+		switch f[0] {
+		case "ext":
+			if ls, ok := unhexPairs(f[1:]); ok {
+				extLabels = ls
+				cfgOut[i+1] = "ok"
+			}
+		case "rule":
+			r, err := parseRule(f[1:])
+			if err != nil {
+				cfgOut[i+1] = "unsupported"
+				continue
+			}
+			var verr error
+			if p, _ := h.Try(func() { verr = r.Validate(r.NameValidationScheme) }); p || verr != nil {
+				cfgOut[i+1] = "invalid"
+				continue
+			}
+			rc = append(rc, r)
+			cfgOut[i+1] = "ok"
+			c.Count("rule:" + f[1])
+		}
+	}
 	dir := h.TempDir("rwsend")
 	defer os.RemoveAll(dir)
-	qm := remote.VerifNewQueueManager(dir, cfg, labels.FromStrings("ext", "e", "zone", "z"), rc, cl, longWait, proto, true)
+	qm := remote.VerifNewQueueManager(dir, cfg, extLabels, rc, cl, longWait, proto, true)
 	c.Op(ops[0], "ok")
 	started := false
 	inconclusive := false
@@ -377,12 +508,10 @@ func runCase(c *h.Ctx, ops []string) {
 		switch f[0] {
 		case "series":
 			ref, lid, kind, seg := atoi(f[1]), atoi(f[2]), f[3], atoi(f[4])
-			if kind != "drop" {
-				cl.mu.Lock()
-				cl.expect[expectedLabels(lid, kind == "own").String()] = ref
-				cl.mu.Unlock()
-			}
 			qm.StoreSeries([]record.RefSeries{{Ref: chunks.HeadSeriesRef(ref), Labels: seriesLabels(lid, kind)}}, seg)
+		case "lseries":
+			ls, _ := unhexPairs(f[3:])
+			qm.StoreSeries([]record.RefSeries{{Ref: chunks.HeadSeriesRef(atoi(f[1])), Labels: ls}}, atoi(f[2]))
 		case "sreset":
 			qm.SeriesReset(atoi(f[1]))
 		case "app":
@@ -440,13 +569,19 @@ func runCase(c *h.Ctx, ops []string) {
 	}
 	ended := false
 
-	for _, op := range ops[1:] {
+	for i, op := range ops[1:] {
 		f := strings.Fields(op)
 		if len(f) == 0 || ended {
 			c.Op(op, "bad-op")
 			continue
 		}
 		switch f[0] {
+		case "ext", "rule":
+			if out, ok := cfgOut[i+1]; ok {
+				c.Op(op, out)
+			} else {
+				c.Op(op, "bad-op")
+			}
 		case "script":
 			if len(f) == 3 && !started {
 				cl.mu.Lock()
@@ -456,12 +591,18 @@ func runCase(c *h.Ctx, ops []string) {
 			} else {
 				c.Op(op, "bad-op")
 			}
-		case "series", "sreset", "app":
-			if (f[0] == "series" && len(f) != 5) || (f[0] == "sreset" && len(f) != 2) || (f[0] == "app" && len(f) != 5) {
+		case "series", "lseries", "sreset", "app":
+			if (f[0] == "series" && len(f) != 5) || (f[0] == "sreset" && len(f) != 2) || (f[0] == "app" && len(f) != 5) ||
+				(f[0] == "lseries" && (len(f) < 3 || len(f)%2 != 1)) {
 				c.Op(op, "bad-op")
 				continue
 			}
 			start()
+			if f[0] == "app" {
+				cl.mu.Lock()
+				cl.idRef[atoi(f[2])] = atoi(f[1])
+				cl.mu.Unlock()
+			}
 			if det {
 				feedOp(f)
 			} else {
@@ -598,6 +739,7 @@ func runCase(c *h.Ctx, ops []string) {
 				int(cnt["dropped_old"]+cnt["droppedh_old"]), int(cnt["dropped_series"]+cnt["droppedh_series"]),
 				int(cnt["dropped_unknown"]+cnt["droppedh_unknown"]), cl.bad,
 				int(cnt["samples"]+cnt["histograms"])-cl.att, pend)
+			out += " lbl=" + lblMap(cl.lbl)
 			if cl.bad > 0 {
 				out += " baddetail=" + h.HexS(strings.Join(cl.badDetail, "|"))
 			}
@@ -615,6 +757,14 @@ func runCase(c *h.Ctx, ops []string) {
 			}
 			if hardSeen {
 				c.Count("run:with-hard-shutdown")
+			}
+			if explicit {
+				if int(cnt["dropped_series"]+cnt["droppedh_series"]) > 0 {
+					c.Count("run:rl-samples-of-relabel-dropped-series")
+				}
+				if extLabels.Len() > 0 && len(rc) > 0 {
+					c.Count("run:rl-ext-labels-and-rules")
+				}
 			}
 			if int(cnt["enqueue_retries"]) > 0 {
 				c.Count("run:append-waited-for-room")
@@ -648,6 +798,194 @@ type gen struct {
 	refs   []int // declared refs
 	decl   map[int]bool
 	lid    int
+	rl     bool     // explicit external labels + write relabel rules (cfg rl=1)
+	extN   []string // names of the external labels of this case
+}
+
+// ---- external labels and write_relabel_configs (rl=1)
+//
+// Names: series carry __name__, s (a per-series id, so that series stay distinct unless a rule removes it)
+// and a random subset of serNames; external labels take their names from extNames.  job and env are in
+// both pools (collision: the series' own value must win), cluster/replica/region only ever come from the
+// external labels.  Values come from one small pool so that keep/drop regexes hit and miss.
+var serNames = []string{"job", "env", "dc", "team"}
+var extNames = []string{"cluster", "replica", "region", "env", "job"}
+var rlValues = []string{"eu", "us", "a", "b", "prod", "dev", "debug", "api", "A1"}
+
+func hexPairs(kv ...string) string {
+	p := make([]string, len(kv))
+	for i, x := range kv {
+		p[i] = h.HexS(x)
+	}
+	return strings.Join(p, " ")
+}
+
+func ruleLine(act string, srcs []string, sep, rx string, mod int, target, repl string) string {
+	sl := "nil"
+	if srcs != nil {
+		sl = "none"
+		if len(srcs) > 0 {
+			p := make([]string, len(srcs))
+			for i, x := range srcs {
+				p[i] = h.HexS(x)
+			}
+			sl = strings.Join(p, ",")
+		}
+	}
+	if rx != "D" {
+		rx = h.HexS(rx)
+	}
+	return fmt.Sprintf("rule %s u %s %s %s %d %s %s", act, sl, h.HexS(sep), rx, mod, h.HexS(target), h.HexS(repl))
+}
+
+// pickRuleName: a label name a rule refers to; biased towards the external labels of the case.
+func (g *gen) pickRuleName() string {
+	r := g.r
+	switch p := r.Intn(100); {
+	case p < 55 && len(g.extN) > 0:
+		return h.Pick(r, g.extN)
+	case p < 70:
+		return h.Pick(r, extNames)
+	case p < 92:
+		return h.Pick(r, serNames)
+	case p < 96:
+		return "s"
+	}
+	return "__name__"
+}
+
+func (g *gen) valueRegex(two bool) string {
+	r := g.r
+	one := func() string {
+		switch r.Intn(6) {
+		case 0:
+			return h.Pick(r, rlValues) + "|" + h.Pick(r, rlValues)
+		case 1:
+			return ".+"
+		case 2:
+			return ".*"
+		case 3:
+			return "[a-e].*"
+		}
+		return h.Pick(r, rlValues)
+	}
+	if two {
+		return one() + ";" + one()
+	}
+	return one()
+}
+
+func (g *gen) nameRegex() string {
+	r := g.r
+	n := 1 + r.Intn(3)
+	parts := make([]string, n)
+	for i := range parts {
+		parts[i] = g.pickRuleName()
+	}
+	if r.Chance(15) {
+		parts = append(parts, "re.*")
+	}
+	return strings.Join(parts, "|")
+}
+
+func (g *gen) genRule() []string {
+	r := g.r
+	srcs := func() []string {
+		if r.Chance(30) {
+			return []string{g.pickRuleName(), g.pickRuleName()}
+		}
+		return []string{g.pickRuleName()}
+	}
+	target := func() string {
+		if r.Chance(25) {
+			return h.Pick(r, []string{"tgt", "shard", "zz"})
+		}
+		return g.pickRuleName()
+	}
+	switch p := r.Intn(100); {
+	case p < 24:
+		sl := srcs()
+		return []string{ruleLine("drop", sl, ";", g.valueRegex(len(sl) == 2), 0, "", "$1")}
+	case p < 40:
+		sl := srcs()
+		rx := g.valueRegex(len(sl) == 2)
+		if r.Chance(50) {
+			rx = strings.ReplaceAll(rx, "debug", "eu") + "|.*" // keep rules that keep most series
+		}
+		return []string{ruleLine("keep", sl, ";", rx, 0, "", "$1")}
+	case p < 54:
+		return []string{ruleLine("labeldrop", nil, ";", g.nameRegex(), 0, "", "$1")}
+	case p < 64:
+		return []string{ruleLine("labelkeep", nil, ";", "__name__|s|"+g.nameRegex()+"|"+g.nameRegex(), 0, "", "$1")}
+	case p < 82:
+		sl := srcs()
+		rx, repl := "(.*)", h.Pick(r, []string{"$1", "x$1", "const", "", "${1}_y"})
+		if len(sl) == 2 {
+			rx, repl = "(.*);(.*)", h.Pick(r, []string{"$1-$2", "$2", "$1", ""})
+		} else if r.Chance(30) {
+			rx = "D"
+		} else if r.Chance(30) {
+			rx = "(" + g.valueRegex(false) + ")"
+		}
+		return []string{ruleLine("replace", sl, ";", rx, 0, target(), repl)}
+	case p < 88:
+		act := h.Pick(r, []string{"dropequal", "keepequal"})
+		return []string{ruleLine(act, []string{g.pickRuleName()}, ";", "D", 0, g.pickRuleName(), "$1")}
+	case p < 92:
+		act := h.Pick(r, []string{"lowercase", "uppercase"})
+		return []string{ruleLine(act, []string{g.pickRuleName()}, ";", "D", 0, target(), "$1")}
+	case p < 96:
+		// hashmod over an (external) label, then keep one residue class
+		out := []string{ruleLine("hashmod", srcs(), ";", "D", 2, "shard", "$1")}
+		if r.Chance(50) {
+			out = append(out, ruleLine("keep", []string{"shard"}, ";", h.Pick(r, []string{"0", "1"}), 0, "", "$1"))
+		}
+		return out
+	}
+	return []string{ruleLine("labelmap", nil, ";", "(cluster|replica|region|job)", 0, "", "x_$1")}
+}
+
+// genRL emits the ext and rule ops of an rl=1 case.
+func (g *gen) genRL() {
+	r := g.r
+	n := r.Intn(4) // 0-3 external labels
+	var kv []string
+	seen := map[string]bool{}
+	for i := 0; i < n; i++ {
+		nm := h.Pick(r, extNames)
+		if seen[nm] {
+			continue
+		}
+		seen[nm] = true
+		g.extN = append(g.extN, nm)
+		kv = append(kv, nm, h.Pick(r, rlValues))
+	}
+	g.ops = append(g.ops, strings.TrimSpace("ext "+hexPairs(kv...)))
+	for i, k := 0, r.Intn(5); i < k; i++ {
+		g.ops = append(g.ops, g.genRule()...)
+	}
+}
+
+func (g *gen) seriesLabelsRL() string {
+	r := g.r
+	kv := []string{"__name__", h.Pick(r, []string{"up", "m"}), "s", strconv.Itoa(g.lid)}
+	for _, nm := range serNames {
+		if r.Chance(45) {
+			kv = append(kv, nm, h.Pick(r, rlValues))
+		}
+	}
+	// sometimes the series has its own value of a label that is otherwise external-only
+	if len(g.extN) > 0 && r.Chance(20) {
+		nm := h.Pick(r, g.extN)
+		dup := false
+		for i := 0; i < len(kv); i += 2 {
+			dup = dup || kv[i] == nm
+		}
+		if !dup {
+			kv = append(kv, nm, h.Pick(r, rlValues))
+		}
+	}
+	return hexPairs(kv...)
 }
 
 func (g *gen) declare(seg int) {
@@ -665,6 +1003,10 @@ func (g *gen) declare(seg int) {
 	g.lid++
 	g.decl[ref] = true
 	g.refs = append(g.refs, ref)
+	if g.rl {
+		g.ops = append(g.ops, fmt.Sprintf("lseries %d %d %s", ref, seg, g.seriesLabelsRL()))
+		return
+	}
 	g.ops = append(g.ops, fmt.Sprintf("series %d %d %s %d", ref, g.lid, kind, seg))
 }
 
@@ -675,9 +1017,9 @@ func (g *gen) pickRef() int {
 	return g.refs[g.r.Intn(len(g.refs))]
 }
 
-func genCase(c *h.Ctx, race bool) []string {
+func genCase(c *h.Ctx, race, rl bool) []string {
 	r := c.Rng
-	g := &gen{r: r, decl: map[int]bool{}}
+	g := &gen{r: r, decl: map[int]bool{}, rl: rl}
 	capa, mss, n := int(r.Range(3, 10)), int(r.Range(2, 5)), int(r.Range(1, 4))
 	if r.Chance(10) {
 		mss = capa + 1 + r.Intn(2) // capacity below max_samples_per_send: one-slot channel
@@ -692,7 +1034,11 @@ func genCase(c *h.Ctx, race bool) []string {
 		mode = "race"
 	}
 	bsd := []int{1, 2, 5, 20}[r.Intn(4)]
-	g.ops = append(g.ops, fmt.Sprintf("cfg mode=%s v=%d cap=%d mss=%d n=%d age=%d bsd=%d", mode, v, capa, mss, n, age, bsd))
+	cfgLine := fmt.Sprintf("cfg mode=%s v=%d cap=%d mss=%d n=%d age=%d bsd=%d", mode, v, capa, mss, n, age, bsd)
+	if rl {
+		cfgLine += " rl=1"
+	}
+	g.ops = append(g.ops, cfgLine)
 	// which ids get a script is decided up front (ids are dense from 1)
 	total := int(r.Range(8, 60))
 	nScripts := r.Intn(5)
@@ -703,6 +1049,9 @@ func genCase(c *h.Ctx, race bool) []string {
 			oc = outcomesRace
 		}
 		g.ops = append(g.ops, fmt.Sprintf("script %d %s", id, h.Pick(r, oc)))
+	}
+	if rl {
+		g.genRL()
 	}
 	for i := 0; i < int(r.Range(2, 6)); i++ {
 		g.declare(r.Intn(3))
@@ -820,6 +1169,74 @@ func genCase(c *h.Ctx, race bool) []string {
 
 func det(mode string) bool { return mode != "race" }
 
+// ---- directed cases: external labels x write relabel rules (boundary cases of StoreSeries' label pipeline)
+
+type dcase struct {
+	name   string
+	ext    []string   // name, value, …
+	rules  []string   // rule lines
+	series [][]string // label pairs
+}
+
+func directedRL() []dcase {
+	up := func(kv ...string) []string { return append([]string{"__name__", "up"}, kv...) }
+	return []dcase{
+		{"drop-on-ext-and-series-label+labeldrop-ext", []string{"cluster", "eu", "replica", "a"},
+			[]string{ruleLine("drop", []string{"cluster", "job"}, ";", "eu;debug", 0, "", "$1"), ruleLine("labeldrop", nil, ";", "replica", 0, "", "$1")},
+			[][]string{up("job", "api"), up("job", "debug"), up("job", "api", "cluster", "own"), up("job", "debug", "cluster", "own"), up("job", "debug", "cluster", "eu")}},
+		{"keep-on-ext-label", []string{"env", "prod"},
+			[]string{ruleLine("keep", []string{"env"}, ";", "prod", 0, "", "$1")},
+			[][]string{up("job", "a"), up("job", "b", "env", "dev"), up("job", "c", "env", "prod")}},
+		{"drop-on-ext-label-only", []string{"region", "us"},
+			[]string{ruleLine("drop", []string{"region"}, ";", "us", 0, "", "$1")},
+			[][]string{up("job", "a"), up("job", "b", "region", "eu"), up("job", "c", "region", "us")}},
+		{"replace-ext-label-from-both", []string{"region", "r1", "cluster", "eu"},
+			[]string{ruleLine("replace", []string{"region", "job"}, ";", "(.*);(.*)", 0, "region", "$1-$2"),
+				ruleLine("replace", []string{"cluster"}, ";", "(.*)", 0, "job", "x$1")},
+			[][]string{up("job", "api"), up(), up("region", "own", "job", "b")}},
+		{"labelkeep-without-ext-names", []string{"cluster", "eu", "replica", "a", "env", "prod"},
+			[]string{ruleLine("labelkeep", nil, ";", "__name__|job|env", 0, "", "$1")},
+			[][]string{up("job", "api"), up("job", "b", "env", "dev", "dc", "x")}},
+		{"keepequal-ext-vs-series", []string{"cluster", "eu"},
+			[]string{ruleLine("keepequal", []string{"cluster"}, ";", "D", 0, "dc", "$1")},
+			[][]string{up("dc", "eu"), up("dc", "us"), up("dc", "us", "cluster", "us"), up()}},
+		{"delete-ext-by-empty-replacement+drop-on-missing", []string{"replica", "b", "cluster", "eu"},
+			[]string{ruleLine("replace", []string{"replica"}, ";", "(.*)", 0, "replica", ""), ruleLine("drop", []string{"replica"}, ";", ".+", 0, "", "$1"),
+				ruleLine("lowercase", []string{"cluster"}, ";", "D", 0, "tgt", "$1")},
+			[][]string{up("job", "a"), up("job", "b", "replica", "x")}},
+		{"hashmod-on-ext+labelmap", []string{"cluster", "eu", "job", "fallback"},
+			[]string{ruleLine("hashmod", []string{"cluster", "s"}, ";", "D", 2, "shard", "$1"), ruleLine("labelmap", nil, ";", "(cluster|job)", 0, "", "x_$1")},
+			[][]string{up("s", "1"), up("s", "2", "job", "own"), up("s", "3")}},
+		{"no-ext-labels-rules-on-ext-names", nil,
+			[]string{ruleLine("drop", []string{"cluster"}, ";", "eu", 0, "", "$1"), ruleLine("keep", []string{"cluster", "job"}, ";", ";.*", 0, "", "$1"),
+				ruleLine("replace", []string{"cluster"}, ";", "D", 0, "tgt", "none")},
+			[][]string{up("job", "a"), up("job", "b", "cluster", "eu"), up("job", "c", "cluster", "us")}},
+		{"no-rules-ext-merge-only", []string{"cluster", "eu", "job", "ext"}, nil,
+			[][]string{up("job", "a"), up(), up("cluster", "own")}},
+	}
+}
+
+func (d dcase) ops(v, n int) []string {
+	ops := []string{fmt.Sprintf("cfg mode=det v=%d cap=4 mss=2 n=%d age=0 bsd=5 rl=1", v, n)}
+	ops = append(ops, strings.TrimSpace("ext "+hexPairs(d.ext...)))
+	ops = append(ops, d.rules...)
+	for i, kv := range d.series {
+		ops = append(ops, fmt.Sprintf("lseries %d 0 %s", i+1, hexPairs(kv...)))
+	}
+	id := 0
+	for round := 0; round < 3; round++ {
+		for i := range d.series {
+			id++
+			kind := "f"
+			if (id+round)%4 == 0 {
+				kind = "h"
+			}
+			ops = append(ops, fmt.Sprintf("app %d %d %s fresh", i+1, id, kind))
+		}
+	}
+	return append(ops, "end soft")
+}
+
 func main() {
 	c := h.Init()
 	defer c.Finish()
@@ -830,14 +1247,25 @@ func main() {
 		}
 		return
 	}
+	for i, d := range directedRL() {
+		c.Case(fmt.Sprintf("x%d-%s", i, d.name))
+		ops := d.ops(1+i%2, 1+i%3)
+		c.NonTrivial(strings.Join(ops, ";"))
+		c.Count("mode:x")
+		runCase(c, ops)
+	}
 	for i := 0; i < c.N; i++ {
 		race := i%3 == 2
+		rl := i%5 == 1 || i%5 == 3 // 40% of the cases: generated external labels + write relabel rules
 		name := "d"
 		if race {
 			name = "r"
 		}
+		if rl {
+			name += "l"
+		}
 		c.Case(fmt.Sprintf("%s%d", name, i))
-		ops := genCase(c, race)
+		ops := genCase(c, race, rl)
 		c.NonTrivial(strings.Join(ops, ";"))
 		c.Count("mode:" + name)
 		runCase(c, ops)
